@@ -79,19 +79,25 @@ impl FakeNode {
     /// Oldest pending call of `method` whose params contain every key/value of `want` (strings compared case-insensitively).
     pub fn take_where(&self, method: &str, want: &Value) -> Option<PendingCall> {
         let mut g = self.state.lock().unwrap();
-        let pos = g.pending.iter().position(|c| {
+        // "skip": n = the (n+1)-th oldest of the matching calls (several look-alike calls outstanding)
+        let skip = want.get("skip").and_then(|x| x.as_u64()).unwrap_or(0) as usize;
+        let pos = g.pending.iter().enumerate().filter(|(_, c)| {
             if c.method != method {
                 return false;
             }
             match want.as_object() {
                 None => true,
-                Some(o) => o.iter().all(|(k, v)| {
+                Some(o) => o.iter().filter(|(k, _)| k.as_str() != "skip").all(|(k, v)| {
                     if k == "key_kind" {
                         // "state" | "attempts": fourth component of a trampoline datastore key
                         return c.params["key"].as_array().and_then(|a| a.get(3)).and_then(|x| x.as_str()) == v.as_str();
                     }
                     if k == "string_contains" {
                         return c.params["string"].as_str().map(|s| s.contains(v.as_str().unwrap_or(""))).unwrap_or(false);
+                    }
+                    if k == "groupid_old" {
+                        // parts of an attempt found at start have group 1, parts of pay commands issued in this run 100+
+                        return (c.params["groupid"].as_u64().unwrap_or(0) == 1) == v.as_bool().unwrap_or(false);
                     }
                     if k == "has_generation" {
                         return c.params["generation"].is_null() != v.as_bool().unwrap_or(false);
@@ -103,7 +109,7 @@ impl FakeNode {
                     }
                 }),
             }
-        })?;
+        }).map(|(i, _)| i).nth(skip)?;
         g.pending.remove(pos)
     }
 
